@@ -137,6 +137,16 @@ func runC18(cfg *vh.Config) error {
 		prof.Comments = r.Chance(25)
 		prof.Collide = len(cases) == 1 || len(cases) == 2 || len(cases) == 12
 		prof.Clash = len(cases) == 4 || len(cases) == 14
+		switch len(cases) {
+		case 6:
+			prof.FlatCycle = 2
+		case 16:
+			prof.FlatCycle = 3
+		case 26:
+			prof.FlatCycle = -2
+		case 36:
+			prof.FlatCycle = 1
+		}
 		c := descgen.Generate(r.Fork(fmt.Sprintf("case%d-%d", len(cases), invalid)), prof, deps)
 		if len(cases)%10 == 3 {
 			// a valid j5s package compiled by the real compiler (the C02 generator)
